@@ -313,7 +313,32 @@ class System(object):
                 if n <= arg:
                     ids = list(range(n))
                 else:
-                    ids = pl.downsample_ids(n, arg)
+                    # which indices count as "evenly spaced" is C11's
+                    # subject: identify the kept poses, check the predicate,
+                    # adopt them
+                    vv = common.views(o)
+                    ids = []
+                    for k, M in enumerate(vv["poses"]):
+                        hit = [i for i in range(n) if common.close(
+                            M, geom.pose(Rs[i], ps[i]), mag) and
+                            i > (ids[-1] if ids else -1)]
+                        if not hit:
+                            break
+                        # (poses may coincide after earlier operations: take
+                        # the admissible index closest to the ideal one)
+                        ideal = k * (n - 1) / max(arg - 1, 1)
+                        ids.append(min(hit, key=lambda i: abs(i - ideal)))
+                    ok = (len(ids) == arg == len(vv["poses"]) and ids[0] == 0
+                          and (arg < 2 or ids[-1] == n - 1) and all(
+                              abs(i - k * (n - 1) / max(arg - 1, 1)) <= 1 + 1e-9
+                              for k, i in enumerate(ids)))
+                    if not ok:
+                        if check:
+                            msgs.append("downsample(%d) of %d poses kept %s: "
+                                        "not min(N, count) evenly spaced poses "
+                                        "including the first and the last" %
+                                        (arg, n, ids))
+                        ids = pl.downsample_ids(n, arg)
                 new = ([Rs[i] for i in ids], [ps[i] for i in ids],
                        None if ts is None else [ts[i] for i in ids])
             elif name == "motion_filter":
